@@ -166,6 +166,38 @@ class SrcGen:
         vs = self.idx_vars(scope)
         r = rng.random()
         ba = state["boolatoms"]
+        if depth > 1 and r < 0.10:  # loop nest whose inner bounds are / and % of the outer iterator (ranges that
+            # straddle multiples of the modulus) and whose body uses / and % of the inner iterator
+            oi = rng.choice(["i", "j", "q"])
+            ij = rng.choice([n for n in ["j", "ii", "q", "i"] if n != oi])
+            olo = rng.choice([0, 0, 1, 2, 3, 5])
+            ohi = olo + rng.choice([2, 3, 3, 4, 5])
+            m = rng.choice([2, 3, 4, 4, 8])
+            k = rng.choice([1, 2, 3, 3, 5, 6, 7])
+            o = ("v", oi)
+            shapes = [
+                ("b", "%", ("b", "+", o, ("c", k)), ("c", m)),
+                ("b", "%", ("b", "+", ("b", "*", ("c", rng.choice([2, 3])), o), ("c", k)), ("c", m)),
+                ("b", "/", ("b", "+", o, ("c", k)), ("c", rng.choice([2, 3, 4]))),
+                ("b", "+", ("b", "%", o, ("c", m)), ("b", "/", o, ("c", m))),
+                ("b", "%", ("b", "-", ("c", k + 8), o), ("c", m)),
+            ]
+            if state["sizes"]:
+                shapes.append(("b", "%", ("b", "+", o, ("v", rng.choice(state["sizes"]))), ("c", m)))
+            ext = rng.choice(shapes)
+            ilo = rng.choice([("c", 0), ("c", 0), ("c", 1), ("b", "%", o, ("c", 2)), ("b", "/", o, ("c", 2))])
+            ihi = ext if ilo == ("c", 0) else ("b", "+", ilo, ext)
+            d1, d2 = rng.choice([2, 2, 3, 4]), rng.choice([2, 2, 3, 4])
+            jv = ("v", ij)
+            inner = [(v, t) for v, t in scope if v not in (oi, ij)] + [(oi, "loop"), (ij, "loop")]
+            body = ["%s        sink2(%s, %s)" % (pad, show(("b", "%", jv, ("c", d1))), show(("b", "/", jv, ("c", d2)))),
+                    "%s        x[%s] += y[%s] * 2.0" % (pad, show(("b", "%", ("b", "+", ("b", "*", ("c", 8), ("b", "/", jv, ("c", d1))),
+                                                                  ("b", "%", jv, ("c", d2))), ("c", 64))),
+                                                          show(("b", "%", ("b", "+", jv, o), ("c", 64))))]
+            if rng.random() < 0.5:
+                body += self.body(inner, cfg, depth - 2, ind + 2, state)
+            return ["%sfor %s in seq(%d, %d):" % (pad, oi, olo, ohi),
+                    "%s    for %s in seq(%s, %s):" % (pad, ij, show(ilo), show(ihi))] + body
         if depth > 0 and r < 0.30:  # loop
             name = rng.choice(self.LOOPNAMES) if rng.random() < 0.7 else rng.choice(vs or ["i"])
             if name in state["args"] and rng.random() < 0.7:
